@@ -194,7 +194,12 @@ def run_scenario(sc, base, repo, harness):
                 with open(logpath, "ab") as f:
                     f.write(f"{sid} {run} EXTKILL {sig}\n".encode())
                 try:
-                    os.kill(p.pid, SIGS[sig])
+                    if sig.startswith("G"):
+                        # as a terminal does (Ctrl-C, hang-up): the signal goes to the whole process group of the
+                        # experiment (the driver is started in its own session, so it leads its group)
+                        os.killpg(p.pid, getattr(signal, "SIG" + sig[1:]))
+                    else:
+                        os.kill(p.pid, SIGS[sig])
                 except ProcessLookupError:
                     pass
         elif "touch" in a:
